@@ -1,0 +1,161 @@
+# -*- coding: utf-8 -*-
+"""
+Verification hooks (off unless the environment variable FSIC_VERIF=1).
+
+With the guard on, the solver entry points emit one ndjson event per step of
+the solution state machine to the file named by FSIC_VERIF_TRACE. The events
+are consumed by the trace specifications under /verif/spec. With the guard off
+this module does nothing and the hooked call sites reduce to a single false
+`if`.
+"""
+
+import functools
+import json
+import os
+
+ON = os.environ.get('FSIC_VERIF') == '1'
+
+_sink = None
+_seq = 0
+_ids = {}
+
+
+def _open():
+    global _sink
+    path = os.environ.get('FSIC_VERIF_TRACE')
+    if path:
+        _sink = open(path, 'a', buffering=1)
+    return _sink
+
+
+def _num(x):
+    """JSON-safe rendering of a scalar (non-finite floats as strings)."""
+    try:
+        f = float(x)
+    except (TypeError, ValueError):
+        return repr(x)
+    if f != f:
+        return 'nan'
+    if f in (float('inf'), float('-inf')):
+        return 'inf' if f > 0 else '-inf'
+    return f
+
+
+def vec(values):
+    return [_num(v) for v in values]
+
+
+def oid(obj):
+    return _ids.setdefault(id(obj), len(_ids) + 1)
+
+
+def emit(ev, obj=None, **fields):
+    global _seq
+    sink = _sink if _sink is not None else _open()
+    if sink is None:
+        return
+    _seq += 1
+    record = {'seq': _seq, 'pid': os.getpid(), 'ev': ev}
+    if obj is not None:
+        record['obj'] = oid(obj)
+    record.update(fields)
+    sink.write(json.dumps(record, default=repr) + '\n')
+
+
+def _cell(obj, name, t):
+    try:
+        return _num(obj.__dict__['_' + name][t])
+    except Exception:
+        return None
+
+
+def _state_at(obj, t):
+    try:
+        return str(obj.__dict__['_status'][t]), int(obj.__dict__['_iterations'][t])
+    except Exception:
+        return None, None
+
+
+def _exc_fields(e):
+    cause = e.__cause__
+    return {
+        'exc': type(e).__name__,
+        'cause': None if cause is None else type(cause).__name__,
+        'cause_is_warning': isinstance(cause, Warning),
+    }
+
+
+def wrap_solve_t(function, kind):
+    """Emit `enter`/`exit` events around a `solve_t()` implementation."""
+
+    @functools.wraps(function)
+    def wrapper(self, t, *args, **kwargs):
+        try:
+            length = len(self.span)
+            position = t + length if t < 0 else t
+            offset = kwargs.get('offset', 0)
+            source = position + offset
+            check = list(self.check)
+            endogenous = list(self.endogenous)
+            chk0 = [_cell(self, x, t) for x in check]
+            if 0 <= source < length:
+                src = [_cell(self, x, source if x in endogenous else t) for x in check]
+            else:
+                src = None
+            st0, it0 = _state_at(self, t)
+            fields = dict(
+                kind=kind, cls=type(self).__name__, t=t, L=length,
+                min=kwargs.get('min_iter', 0), max=kwargs.get('max_iter', 100),
+                tol=_num(kwargs.get('tol', 1e-10)), offset=offset,
+                failures=kwargs.get('failures', 'raise'), errors=kwargs.get('errors', 'raise'),
+                cfe=bool(kwargs.get('catch_first_error', True)),
+                lags=int(getattr(self, 'lags', 0)), leads=int(getattr(self, 'leads', 0)),
+                check=check, chk0=chk0, src=src, st0=st0, it0=it0, nargs=len(args),
+            )
+            if kind == 'linker':
+                fields['submodels'] = repr(kwargs.get('submodels'))
+        except Exception as e:  # never let the hook change behaviour
+            fields = dict(kind=kind, hook_error=repr(e))
+        emit('enter', self, **fields)
+
+        try:
+            result = function(self, t, *args, **kwargs)
+        except BaseException as e:
+            st, it = _state_at(self, t)
+            emit('exit', self, ret=None, st=st, it=it, chk=[_cell(self, x, t) for x in getattr(self, 'check', [])],
+                 **_exc_fields(e))
+            raise
+
+        st, it = _state_at(self, t)
+        emit('exit', self, ret=result if isinstance(result, bool) else repr(result), st=st, it=it,
+             chk=[_cell(self, x, t) for x in getattr(self, 'check', [])], exc=None, cause=None,
+             cause_is_warning=False)
+        return result
+
+    return wrapper
+
+
+def wrap_solve(function, kind):
+    """Emit `solve_enter`/`solve_exit` events around a `solve()` implementation."""
+
+    @functools.wraps(function)
+    def wrapper(self, *args, **kwargs):
+        emit('solve_enter', self, kind=kind, cls=type(self).__name__, L=len(self.span),
+             start=repr(kwargs.get('start')), end=repr(kwargs.get('end')),
+             lags=int(getattr(self, 'lags', 0)), leads=int(getattr(self, 'leads', 0)))
+        try:
+            result = function(self, *args, **kwargs)
+        except BaseException as e:
+            emit('solve_exit', self, ret=None, **_exc_fields(e))
+            raise
+
+        try:
+            labels, indexes, solved = result
+            ret = {'labels': [repr(x) for x in labels], 'indexes': [int(x) for x in indexes],
+                   'solved': [bool(x) for x in solved]}
+        except Exception:
+            ret = repr(result)
+        emit('solve_exit', self, ret=ret, exc=None, cause=None, cause_is_warning=False)
+        return result
+
+    return wrapper
